@@ -32,6 +32,10 @@ pub enum Idx {
     /// the signature is made with the party's key as registered for the NEXT epoch (another
     /// registration set, hence another aggregate key): not a signature of the current round
     NextEpochRegistration,
+    /// a genuine signature of the party on ANOTHER message of the same epoch (e.g. the one it
+    /// published for another signed entity type), re-posted by anybody under the party's name with
+    /// that other message as `signed_message` and the current entity type as label
+    OtherMessage,
 }
 
 #[derive(Clone, Copy, Debug, Serialize, Deserialize, PartialEq, Eq, Hash)]
@@ -103,11 +107,24 @@ fn prefix(s: Start) -> Vec<Ev> {
     p
 }
 
+/// another message the parties sign in the same epoch
+fn other_message(msg: &mithril_common::entities::ProtocolMessage) -> mithril_common::entities::ProtocolMessage {
+    let mut other = msg.clone();
+    other.set_message_part(mithril_common::entities::ProtocolMessagePartKey::LatestBlockNumber, "4242".to_string());
+    other
+}
+
 async fn build_signature(w: &World, epoch: u64, msg: &mithril_common::entities::ProtocolMessage, s: &Sub) -> Option<SingleSignature> {
-    let mut sig = if s.idx == Idx::NextEpochRegistration { w.sign(s.by, epoch + 1, msg).await? } else { w.sign(s.by, epoch, msg).await? };
+    let mut sig = if s.idx == Idx::NextEpochRegistration {
+        w.sign(s.by, epoch + 1, msg).await?
+    } else if s.idx == Idx::OtherMessage {
+        w.sign(s.by, epoch, &other_message(msg)).await?
+    } else {
+        w.sign(s.by, epoch, msg).await?
+    };
     let m = protocol_parameters().m;
     match s.idx {
-        Idx::AsSigned | Idx::NextEpochRegistration => {}
+        Idx::AsSigned | Idx::NextEpochRegistration | Idx::OtherMessage => {}
         Idx::InnerSubset => {
             let keep: Vec<u64> = sig.won_indexes[..sig.won_indexes.len().div_ceil(2)].to_vec();
             let mut p = sig.to_protocol_signature();
@@ -271,6 +288,11 @@ fn replay_inner(scratch: &std::path::Path, start: Start, subs: &[Sub]) -> RunRes
             ),
         )));
         let mut dedup_dropped: BTreeMap<usize, usize> = BTreeMap::new();
+        // not-yet-open starts: parties whose own valid signature was answered 202 (buffered), and
+        // parties under whose name an older genuine signature was replayed (also answered 202)
+        let mut honest_buffered: BTreeSet<usize> = BTreeSet::new();
+        let mut replayed_under: BTreeSet<usize> = BTreeSet::new();
+        let mut mislabelled_queue_under: BTreeSet<usize> = BTreeSet::new();
         let mut accepted: Vec<Accepted> = vec![];
         let mut honest_accepted: BTreeSet<usize> = BTreeSet::new();
         let mut answers = vec![];
@@ -281,7 +303,11 @@ fn replay_inner(scratch: &std::path::Path, start: Start, subs: &[Sub]) -> RunRes
             };
             let answer = match s.route {
                 Route::Http => {
-                    let code = w.post_signature(&entity, &sig, &msg).await;
+                    let code = if s.idx == Idx::OtherMessage {
+                        w.post_signature(&entity, &sig, &other_message(&pm).to_message()).await
+                    } else {
+                        w.post_signature(&entity, &sig, &msg).await
+                    };
                     format!("http-{code}")
                 }
                 Route::Queue => {
@@ -338,6 +364,15 @@ fn replay_inner(scratch: &std::path::Path, start: Start, subs: &[Sub]) -> RunRes
             if ok && is_valid_own && start.is_open() {
                 honest_accepted.insert(s.by);
             }
+            if answer == "http-202" && is_valid_own && !start.is_open() {
+                honest_buffered.insert(s.by);
+            }
+            if ok && matches!(s.idx, Idx::OtherMessage | Idx::NextEpochRegistration) && s.by == s.label && !start.is_open() {
+                replayed_under.insert(s.label);
+            }
+            if ok && s.by != s.label && s.route != Route::Http && !start.is_open() {
+                mislabelled_queue_under.insert(s.label);
+            }
             if ok {
                 accepted.push(Accepted { sub: *s, answer: answer.clone() });
             }
@@ -375,6 +410,44 @@ fn replay_inner(scratch: &std::path::Path, start: Start, subs: &[Sub]) -> RunRes
                             what: format!("certificate {} names party #{p} ({}) among its signers, but no signature made with that party's registered key was stored", c.hash, named.party_id),
                             replay: ctx.clone(),
                         });
+                    }
+                }
+            }
+        }
+        if !start.is_open() {
+            // the open message exists by now and the hand-over has run: every buffered honest
+            // contribution must be recorded (or the message be certified)
+            if let Ok(Some(om)) = w.open_messages.get_open_message_with_single_signatures(&entity).await
+                && !om.is_certified
+            {
+                for h in &honest_buffered {
+                    let pid = &w.fixture.signers_fixture()[*h].signer_with_stake.party_id;
+                    let own = om.single_signatures.iter().any(|r| &r.party_id == pid && valid_under_party(&w, epoch, *h, r, &msg));
+                    if !own {
+                        let replay = json!({"replay": replay_json, "step": "after hand-over", "answers": answers, "log": log});
+                        if replayed_under.contains(h) {
+                            violations.push(Violation {
+                                key: "C16/buffered-contribution-evicted-by-replayed-signature".into(),
+                                what: format!(
+                                    "party #{h}'s own valid signature was answered 202 (buffered); then another genuine signature of party #{h} that is not a signature of this round (made on ANOTHER message of the epoch and posted with that message as signed_message, or made under its registration for the next epoch) was posted under its name with the same entity type as label: answered 202, it replaced the buffered entry (the buffer holds one entry per (type, party) and the route authenticates against the peer-supplied message); at hand-over it is refused and nothing is recorded for party #{h}"
+                                ),
+                                replay,
+                            });
+                        } else if mislabelled_queue_under.contains(h) {
+                            violations.push(Violation {
+                                key: "C16/buffered-contribution-evicted-by-mislabelled-queue-signature".into(),
+                                what: format!(
+                                    "party #{h}'s own valid signature was answered 202 (buffered); then the message-queue consumer delivered a signature made by another party under party #{h}'s name (the processor marks every queue signature authenticated): it was buffered in place of the honest entry (one entry per (type, party)); at hand-over it is refused and nothing is recorded for party #{h}"
+                                ),
+                                replay,
+                            });
+                        } else {
+                            violations.push(Violation {
+                                key: "C16/buffered-contribution-disappeared".into(),
+                                what: format!("party #{h}'s own valid signature was answered 202 (buffered), yet after the open message was created nothing is recorded for it"),
+                                replay,
+                            });
+                        }
                     }
                 }
             }
@@ -553,6 +626,27 @@ pub fn run(ctx: &Ctx) -> ! {
             }
         }
     }
+    // replay of a party's genuine signature on another message while its contribution is buffered
+    let mut replays = 0u64;
+    {
+        let honest: Vec<Sub> = (0..3).map(|i| Sub { by: i, label: i, idx: Idx::AsSigned, route: Route::Http }).collect();
+        for p in 0..3 {
+            let r = Sub { by: p, label: p, idx: Idx::OtherMessage, route: Route::Http };
+            for pos in 0..=3 {
+                let mut s = honest.clone();
+                s.insert(pos, r);
+                jobs.push((Start::NotYetOpen, s.clone()));
+                jobs.push((Start::Open, s));
+                replays += 2;
+            }
+        }
+        let mut all = honest.clone();
+        all.extend((0..3).map(|p| Sub { by: p, label: p, idx: Idx::OtherMessage, route: Route::Http }));
+        jobs.push((Start::NotYetOpen, all.clone()));
+        jobs.push((Start::Open, all));
+        replays += 2;
+    }
+    rep.extra("histories_with_a_replayed_signature_on_another_message", json!(replays));
     rep.extra("histories_in_the_nested_party_id_world", json!(nested));
     // the message queue as wired (real deduplicator): all sequences of <= 2 publications over
     // (publisher, whose key signed), from both prepared states
